@@ -29,6 +29,7 @@ use futures::FutureExt;
 use object_store::memory::InMemory;
 use object_store::path::Path;
 use object_store::{
+    GetResultPayload,
     GetOptions, GetRange, GetResult, ListResult, MultipartUpload, ObjectMeta, ObjectStore, PutMode,
     PutMultipartOpts, PutOptions, PutPayload, PutResult, Result as OsResult,
 };
@@ -89,6 +90,85 @@ impl ObjectStore for DispatchStore {
     }
     async fn copy_if_not_exists(&self, from: &Path, to: &Path) -> OsResult<()> {
         self.h().copy_if_not_exists(from, to).await
+    }
+}
+
+/// Sits directly under CachedObjectStore.  Delivers every body as a stream of
+/// 1 KiB parts (InMemory never streams in several parts); on demand breaks the
+/// next whole-object body after k parts, refuses the next upload without
+/// touching the store, and delays ranged reads proportionally to their size.
+struct FaultStore {
+    inner: Arc<dyn ObjectStore>,
+    reject_next_put: std::sync::atomic::AtomicBool,
+    break_after: std::sync::Mutex<Option<usize>>,
+    range_latency: std::sync::atomic::AtomicBool,
+}
+impl fmt::Debug for FaultStore {
+    fn fmt(&self, f: &mut fmt::Formatter<'_>) -> fmt::Result {
+        write!(f, "FaultStore")
+    }
+}
+impl fmt::Display for FaultStore {
+    fn fmt(&self, f: &mut fmt::Formatter<'_>) -> fmt::Result {
+        write!(f, "FaultStore")
+    }
+}
+fn injected(what: &str) -> object_store::Error {
+    object_store::Error::Generic { store: "FaultStore", source: what.to_string().into() }
+}
+#[async_trait]
+impl ObjectStore for FaultStore {
+    async fn put_opts(&self, location: &Path, payload: PutPayload, opts: PutOptions) -> OsResult<PutResult> {
+        if self.reject_next_put.swap(false, std::sync::atomic::Ordering::SeqCst) {
+            return Err(injected("upload refused"));
+        }
+        self.inner.put_opts(location, payload, opts).await
+    }
+    async fn put_multipart_opts(&self, location: &Path, opts: PutMultipartOpts) -> OsResult<Box<dyn MultipartUpload>> {
+        self.inner.put_multipart_opts(location, opts).await
+    }
+    async fn get_opts(&self, location: &Path, options: GetOptions) -> OsResult<GetResult> {
+        let ranged = options.range.is_some();
+        let plain_whole = !ranged && !options.head;
+        let r = self.inner.get_opts(location, options).await?;
+        let (meta, range, attributes) = (r.meta.clone(), r.range.clone(), r.attributes.clone());
+        let body = r.bytes().await?;
+        if ranged && self.range_latency.load(std::sync::atomic::Ordering::SeqCst) {
+            tokio::time::sleep(std::time::Duration::from_millis(1 + body.len() as u64 / 60)).await;
+        }
+        let brk = if plain_whole { self.break_after.lock().unwrap().take() } else { None };
+        let mut parts: Vec<OsResult<Bytes>> = Vec::new();
+        let mut off = 0;
+        while off < body.len() {
+            if brk == Some(parts.len()) {
+                break;
+            }
+            let end = (off + 1024).min(body.len());
+            parts.push(Ok(body.slice(off..end)));
+            off = end;
+        }
+        if let Some(k) = brk {
+            if parts.len() <= k {
+                parts.truncate(k);
+            }
+            parts.push(Err(injected("connection reset in the middle of the body")));
+        }
+        Ok(GetResult { payload: GetResultPayload::Stream(Box::pin(futures::stream::iter(parts))), meta, range, attributes })
+    }
+    async fn delete(&self, location: &Path) -> OsResult<()> {
+        self.inner.delete(location).await
+    }
+    fn list(&self, prefix: Option<&Path>) -> BoxStream<'_, OsResult<ObjectMeta>> {
+        self.inner.list(prefix)
+    }
+    async fn list_with_delimiter(&self, prefix: Option<&Path>) -> OsResult<ListResult> {
+        self.inner.list_with_delimiter(prefix).await
+    }
+    async fn copy(&self, from: &Path, to: &Path) -> OsResult<()> {
+        self.inner.copy(from, to).await
+    }
+    async fn copy_if_not_exists(&self, from: &Path, to: &Path) -> OsResult<()> {
+        self.inner.copy_if_not_exists(from, to).await
     }
 }
 
@@ -157,6 +237,12 @@ enum Op {
     /// 3 wrapper put_multipart, 4 wrapper copy, 5 wrapper rename, 6 wrapper copy_if_not_exists
     Put { k: usize, len: usize, fill: u32, via: u8 },
     Evict(usize),
+    /// an upload of a (new) key through the wrapper (via 1 put, 2 put_opts) that the inner store refuses
+    PutRejected { k: usize, len: usize, fill: u32, via: u8 },
+    /// whole-object get whose body breaks after `parts` 1 KiB parts (if it reaches the inner store)
+    ReadBroken(usize, usize),
+    /// get_ranges with ranged reads delayed proportionally to their size
+    Ranges(usize, Vec<(usize, usize)>),
     Read(Req),
     Start(u32, Req),
     Go(u32),
@@ -274,6 +360,9 @@ fn encode(ops: &[Op]) -> String {
         .map(|o| match o {
             Op::Put { k, len, fill, via } => format!("P {} {} {} {}", k, len, fill, via),
             Op::Evict(k) => format!("E {}", k),
+            Op::PutRejected { k, len, fill, via } => format!("J {} {} {} {}", k, len, fill, via),
+            Op::ReadBroken(k, n) => format!("X {} {}", k, n),
+            Op::Ranges(k, rs) => format!("M {} {}", k, rs.iter().map(|(a, b)| format!("{}-{}", a, b)).collect::<Vec<_>>().join(",")),
             Op::Read(q) => format!("R {}", enc_req(q)),
             Op::Start(l, q) => format!("S {} {}", l, enc_req(q)),
             Op::Go(l) => format!("W {}", l),
@@ -289,6 +378,12 @@ fn decode(s: &str) -> Vec<Op> {
             match f[0] {
                 "P" => Op::Put { k: f[1].parse().unwrap(), len: f[2].parse().unwrap(), fill: f[3].parse().unwrap(), via: f.get(4).and_then(|x| x.parse().ok()).unwrap_or(2) },
                 "E" => Op::Evict(f[1].parse().unwrap()),
+                "J" => Op::PutRejected { k: f[1].parse().unwrap(), len: f[2].parse().unwrap(), fill: f[3].parse().unwrap(), via: f[4].parse().unwrap() },
+                "X" => Op::ReadBroken(f[1].parse().unwrap(), f[2].parse().unwrap()),
+                "M" => Op::Ranges(
+                    f[1].parse().unwrap(),
+                    f.get(2).map(|t| t.split(',').filter_map(|r| r.split_once('-')).map(|(a, b)| (a.parse().unwrap(), b.parse().unwrap())).collect()).unwrap_or_default(),
+                ),
                 "R" => Op::Read(dec_req(&f[1..])),
                 "S" => Op::Start(f[1].parse().unwrap(), dec_req(&f[2..])),
                 _ => Op::Go(f[1].parse().unwrap()),
@@ -563,7 +658,13 @@ async fn run_case(cfg: &Config, ops: &[Op]) -> Result<Run, String> {
         .await
         .map_err(|e| format!("TieredCache::new: {}", e))?,
     );
-    let cs = Arc::new(CachedObjectStore::new(dispatch, cache.clone()));
+    let fault = Arc::new(FaultStore {
+        inner: dispatch,
+        reject_next_put: std::sync::atomic::AtomicBool::new(false),
+        break_after: std::sync::Mutex::new(None),
+        range_latency: std::sync::atomic::AtomicBool::new(false),
+    });
+    let cs = Arc::new(CachedObjectStore::new(fault.clone(), cache.clone()));
 
     let mut metas: BTreeMap<usize, Meta> = BTreeMap::new();
     let mut line: Vec<String> = vec![format!("C {}", cfg.dir as u8)];
@@ -698,6 +799,60 @@ async fn run_case(cfg: &Config, ops: &[Op]) -> Result<Run, String> {
                     }
                 }
             }
+            Op::PutRejected { k, len, fill, via } => {
+                // oracle only (the model has no refused uploads: the store is unchanged, nothing may be cached)
+                let path = Path::from(KEYS[*k % KEYS.len()]);
+                if raw.head(&path).await.is_ok() {
+                    continue; // write-once: only new keys
+                }
+                let payload = PutPayload::from(content(*len, *fill));
+                fault.reject_next_put.store(true, std::sync::atomic::Ordering::SeqCst);
+                let r = if *via == 1 {
+                    cs.put(&path, payload).await
+                } else {
+                    cs.put_opts(&path, payload, PutOptions { mode: PutMode::Create, ..Default::default() }).await
+                };
+                fault.reject_next_put.store(false, std::sync::atomic::Ordering::SeqCst);
+                if r.is_ok() {
+                    bad.push(format!("op {}: an upload of {:?} that the inner store refused was reported as successful", i, path.to_string()));
+                }
+            }
+            Op::ReadBroken(k, parts) => {
+                // oracle only: either the read fails or it returns exactly the stored bytes
+                let res = Resolved { path: Path::from(KEYS[*k % KEYS.len()]), kind: 0, opts: GetOptions::default(), range: (0, 0) };
+                *fault.break_after.lock().unwrap() = Some(*parts);
+                let got = match tokio::time::timeout(std::time::Duration::from_millis(STEP_TIMEOUT_MS), AssertUnwindSafe(issue(cs.as_ref(), &res)).catch_unwind()).await {
+                    Ok(Ok(s)) => s,
+                    Ok(Err(_)) => "PANIC".to_string(),
+                    Err(_) => "HUNG".to_string(),
+                };
+                *fault.break_after.lock().unwrap() = None;
+                let want = issue(raw.as_ref(), &res).await;
+                if got != want && !got.starts_with('E') {
+                    bad.push(format!("op {} (X {} {}): whole-object read of {:?} whose body broke after {} KiB returned {} but the backing store holds {}", i, k, parts, res.path.to_string(), parts, got, want));
+                }
+            }
+            Op::Ranges(k, rs) => {
+                // oracle only: position by position against the raw store
+                let path = Path::from(KEYS[*k % KEYS.len()]);
+                let ranges: Vec<std::ops::Range<usize>> = rs.iter().map(|(a, b)| *a..*b).collect();
+                let canon = |r: OsResult<Vec<Bytes>>| -> String {
+                    match r {
+                        Ok(v) => format!("ok:[{}]", v.iter().map(|b| format!("{}:{:016x}", b.len(), fnv(b))).collect::<Vec<_>>().join(",")),
+                        Err(e) => err_code(&e),
+                    }
+                };
+                fault.range_latency.store(true, std::sync::atomic::Ordering::SeqCst);
+                let got = match tokio::time::timeout(std::time::Duration::from_millis(STEP_TIMEOUT_MS), cs.get_ranges(&path, &ranges)).await {
+                    Ok(r) => canon(r),
+                    Err(_) => "HUNG".to_string(),
+                };
+                fault.range_latency.store(false, std::sync::atomic::Ordering::SeqCst);
+                let want = canon(raw.get_ranges(&path, &ranges).await);
+                if !acceptable(&got, &want) && !(want.starts_with('E') && got.starts_with('E')) {
+                    bad.push(format!("op {} (get_ranges {:?}): ranged reads of {:?} through the cache returned {} but the backing store answers {} (position by position)", i, rs, path.to_string(), got, want));
+                }
+            }
             Op::Evict(k) => {
                 cache.invalidate(KEYS[*k % KEYS.len()]).await;
                 line.push(format!("E {}", k));
@@ -720,7 +875,9 @@ async fn run_case(cfg: &Config, ops: &[Op]) -> Result<Run, String> {
                         let got = joined.unwrap_or_else(|_| "PANIC".into());
                         let tier = tier_of(&before, &cache.stats(), q.cached_path());
                         let want = issue(raw.as_ref(), &res).await;
-                        if !acceptable(&got, &want) {
+                        if want == "E1" && got.starts_with("ok") {
+                            bad.push(format!("op {} ({}): read of an object the backing store does not have ({:?}) returned {}", i, qs, KEYS[q.key() % KEYS.len()], got));
+                        } else if !acceptable(&got, &want) {
                             bad.push(format!("op {} ({}): read of {:?} through the cache returned {} but the backing store answers {}", i, qs, KEYS[q.key() % KEYS.len()], got, want));
                         }
                         arrivals += 1;
@@ -841,7 +998,7 @@ async fn run_case(cfg: &Config, ops: &[Op]) -> Result<Run, String> {
 
 // ------------------------------------------------------------ generator ----
 fn gen_len(rng: &mut Rng) -> usize {
-    *rng.pick(&[0usize, 1, 2, 5, 63, 64, 65, 100, 300, 1000, 3000])
+    *rng.pick(&[0usize, 1, 2, 5, 63, 64, 65, 100, 300, 1000, 3000, 5000])
 }
 
 fn gen_req(rng: &mut Rng, keys: &[usize], lens: &BTreeMap<usize, usize>) -> Req {
@@ -982,9 +1139,54 @@ fn gen_case(rng: &mut Rng, report: &mut Report) -> (Config, Vec<Op>) {
             }
             ops.push(Op::Put { k, len, fill, via });
             report.bump("op.put");
-        } else if r < 24 {
+        } else if r < 22 {
             ops.push(Op::Evict(*rng.pick(&keys)));
             report.bump("op.invalidate");
+        } else if r < 27 {
+            match rng.below(3) {
+                0 => {
+                    // an upload of a key that does not exist yet, refused by the inner store, then read
+                    let absent: Vec<usize> = keys.iter().copied().filter(|k| !lens.contains_key(k)).collect();
+                    if let Some(k) = absent.first().copied() {
+                        fill += 1;
+                        ops.push(Op::PutRejected { k, len: gen_len(rng).max(1), fill, via: 1 + rng.below(2) as u8 });
+                        ops.push(Op::Read(Req::Get(k)));
+                        if rng.chance(1, 2) {
+                            ops.push(Op::Read(Req::Get(k)));
+                        }
+                        report.bump("fault.upload_refused_then_read");
+                    }
+                }
+                1 => {
+                    // a body that breaks midway (objects of several KiB), then reads that may hit the cache
+                    let big: Vec<usize> = lens.iter().filter(|(_, l)| **l >= 1000).map(|(k, _)| *k).collect();
+                    if let Some(k) = big.first().copied() {
+                        let nparts = (lens[&k] + 1023) / 1024;
+                        ops.push(Op::Evict(k));
+                        ops.push(Op::ReadBroken(k, rng.below(nparts as u64 + 1) as usize));
+                        ops.push(Op::Read(Req::Get(k)));
+                        ops.push(Op::Read(Req::Get(k)));
+                        report.bump("fault.body_breaks_midway");
+                    }
+                }
+                _ => {
+                    // get_ranges: a large range first, small ones after it (size-dependent latency)
+                    let present: Vec<(usize, usize)> = lens.iter().map(|(k, l)| (*k, *l)).filter(|(_, l)| *l >= 64).collect();
+                    if !present.is_empty() {
+                        let (k, len) = present[rng.below(present.len() as u64) as usize];
+                        let mut rs = vec![(0usize, len - rng.below(8) as usize)];
+                        for _ in 0..rng.range_usize(1, 4) {
+                            let a = rng.below(len as u64 - 8) as usize;
+                            rs.push((a, a + 1 + rng.below(7) as usize));
+                        }
+                        if rng.chance(1, 3) {
+                            rs.swap(0, 1);
+                        }
+                        ops.push(Op::Ranges(k, rs));
+                        report.bump("op.get_ranges");
+                    }
+                }
+            }
         } else if r < 70 {
             ops.push(Op::Read(gen_req(rng, &keys, &lens)));
             report.bump("op.read");
@@ -1064,6 +1266,15 @@ fn corpus() -> Vec<(Config, Vec<Op>)> {
             Op::Read(Req::Opts { k: 1, range: None, im: Cond::None, inm: Cond::Tags(vec![]), md: Date::Rel(1, 1), um: Date::None, version: false, head: false }),
             Op::Read(Req::Opts { k: 3, range: None, im: Cond::Star, inm: Cond::None, md: Date::None, um: Date::None, version: false, head: false })]),
     ];
+    // refused uploads of new keys, bodies breaking midway, get_ranges with a large range first (oracle only)
+    for c in [ample.clone(), ample2.clone(), Config { l1: 0, l2: 1 << 20, dir: true }] {
+        v.push((c, vec![
+            Op::PutRejected { k: 1, len: 50, fill: 1, via: 1 }, g(1), g(1), Op::PutRejected { k: 2, len: 60, fill: 2, via: 2 }, g(2), Op::Read(plain(2)),
+            put(1, 70, 3), g(1), g(2),
+            put(3, 5000, 4), Op::ReadBroken(3, 2), g(3), g(3), Op::Evict(3), Op::ReadBroken(3, 0), g(3), Op::Evict(3), Op::ReadBroken(3, 4), g(3), Op::ReadBroken(3, 5), g(3),
+            Op::Ranges(3, vec![(0, 4990), (10, 12), (4000, 4003), (100, 101)]), Op::Ranges(3, vec![(5, 6), (0, 5000), (7, 9)]), Op::Ranges(4, vec![(0, 10), (2, 3)]),
+        ]));
+    }
     // creation by every path, each probed while the key does not exist yet and read right after
     // (a NotFound remembered by the wrapper must not outlive the creation, whoever creates the object)
     let mut ops = Vec::new();
